@@ -59,8 +59,10 @@ def gen_case(rng, tier):
     T = rng.randint(1, 3)
     n = rng.choice([1, 2, 2, 3])
     sparse = rng.random() < 0.2
+    # zeros in the emission table give particles of weight exactly 0 (log weight -inf) next to live ones
+    sparse_e = mode != "stat" and rng.random() < 0.35
     c = {"mode": mode, "K": K, "M": M, "T": T, "n": n, "init": stoch(rng, 1, K, False)[0], "trans": stoch(rng, K, K, sparse),
-         "emis": stoch(rng, K, M, False), "obs": [rng.randrange(M) for _ in range(T)],
+         "emis": stoch(rng, K, M, sparse_e), "obs": [rng.randrange(M) for _ in range(T)],
          "proposal": rng.choice([None, None, "custom"]), "qprobs": stoch(rng, M, K, False),
          "resample_at": [t for t in range(T) if rng.random() < 0.5], "key": rng.randint(0, 2**30),
          "batch": 6000 if tier == "quick" else 20000, "leaf_budget": 600 if tier == "quick" else 6000}
@@ -300,6 +302,26 @@ def pipeline(case):
     return run
 
 
+class DeadAware:
+    """Outcome function for the SMC trees. When every particle has weight 0 the resampling logits are
+    NaN or all -inf: the collection is dead, its evidence mass is 0 whatever index is drawn, so one
+    arbitrary outcome is explored with probability 1 - and the leaf must then report lml = -inf from that
+    point on (checked by the caller through .dead_from)."""
+
+    def __init__(self):
+        self.nan_sites = 0
+
+    def reset(self):
+        self.nan_sites = 0
+
+    def __call__(self, site):
+        args = [np.asarray(a, dtype=np.float64) for a in site["args"]] + [np.asarray(v, dtype=np.float64) for v in site["kwargs"].values()]
+        if any(np.isnan(a).any() or (a.size and np.all(np.isneginf(a))) for a in args):
+            self.nan_sites += 1
+            return [np.zeros(tuple(site["shape"]), dtype=np.dtype(site["dtype"]))], [1.0]
+        return otree.discrete_outcomes(site, max_joint=300)
+
+
 def run_tree(case, viol, probes):
     sig = dict(mode="tree", n=case["n"], T=case["T"], proposal=bool(case["proposal"]))
     T = case["T"]
@@ -308,12 +330,24 @@ def run_tree(case, viol, probes):
     acc_h = np.zeros(T)
     tot = 0.0
     leaves = 0
-    for outs, P, path in otree.explore(lambda s: run_scripted(run, s)[0],
-                                       outcomes=lambda site: otree.discrete_outcomes(site, max_joint=300),
-                                       max_leaves=case["leaf_budget"]):
+    oc = DeadAware()
+
+    def run_reset(s):
+        oc.reset()
+        return run_scripted(run, s)[0]
+
+    for outs, P, path in otree.explore(run_reset, outcomes=oc, max_leaves=case["leaf_budget"]):
         leaves += 1
         tot += P
+        if oc.nan_sites:
+            probes["dead_collection"] = 1
+            if np.isfinite(float(outs[-1][0])):
+                viol.append(V("undefined", "nan_resampling_weights_only_when_all_particles_dead",
+                              f"a resampling site received NaN logits but the final log marginal estimate is {float(outs[-1][0])}", **sig))
+                return leaves
         for t, (lml, est) in enumerate(outs):
+            if float(lml) == -math.inf or (not np.isfinite(float(lml)) and oc.nan_sites):
+                probes["zero_weight_path"] = 1
             z = math.exp(float(lml)) if np.isfinite(float(lml)) else 0.0
             acc_z[t] += P * z
             e = float(est)
@@ -359,12 +393,24 @@ def run_tree_rsmc(case, viol, probes):
     tot = 0.0
     leaves = 0
     resampled = 0
-    for (lml, lw), P, path in otree.explore(lambda s: run_scripted(run, s)[0],
-                                            outcomes=lambda site: otree.discrete_outcomes(site, max_joint=300),
-                                            max_leaves=case["leaf_budget"]):
+    oc = DeadAware()
+
+    def run_reset(s):
+        oc.reset()
+        return run_scripted(run, s)[0]
+
+    for (lml, lw), P, path in otree.explore(run_reset, outcomes=oc, max_leaves=case["leaf_budget"]):
         leaves += 1
         tot += P
         lml = np.asarray(lml, dtype=np.float64)
+        if oc.nan_sites:
+            probes["dead_collection"] = 1
+            if np.isfinite(lml[-1]):
+                viol.append(V("undefined", "nan_resampling_weights_only_when_all_particles_dead",
+                              f"a resampling site received NaN logits but the final log marginal estimate is {lml[-1]}", **sig))
+                return leaves
+        if np.any(np.isneginf(np.asarray(lw, dtype=np.float64))):
+            probes["zero_weight_particle"] = 1
         acc += P * np.where(np.isfinite(lml), np.exp(lml), 0.0)
         if np.any(np.all(np.asarray(lw) == 0.0, axis=1)) and case["n"] > 1:
             resampled += 1
